@@ -391,3 +391,8 @@ def run(ctx):
     ctx.ob(len(callers_) == 1, 'I2: the fully-written hook has a single caller (the service loop)', 'I2|single-caller', rule='R-C11-1')
     lost = prims.rets_after(sqa_, [r'^HashMap::get\(self\.operations, Option::unwrap\(self\.current_operation\)\) is None$'])
     ctx.ob(lost == {'Err'}, 'a current operation that has been completed while partially encoded ends the service call with an error (the torn packet cannot be finished; the engine halts) instead of a panic (%s)' % sorted(lost or ['lookup not found']), 'I2|vanished-current', loc=sqa_.loc(), rule='R-C11-1')
+    # ---- added after the mutation sweep: the reviewed rejection conditions of every inbound validator
+    from . import shared as _sh2
+    _nv = _sh2.validator_table(ctx, lambda p: 'inbound' in p, 'R-C11-4', 'a server packet is rejected exactly for a listed protocol violation')
+    if ctx.config == 'all':
+        ctx.floor(_nv, 10, 'inbound validators with a reviewed rejection table')
